@@ -643,6 +643,10 @@ func c11Run(w *mon.W, script []c11step, si int, f *c11fault) {
 	if w.SampleDue(151) {
 		var ss []string
 		for _, st := range r.script {
+			if st.msg == nil {
+				ss = append(ss, "[the flushed handler completes late]")
+				continue
+			}
 			s := refcodec.Describe(&p9p.Fcall{Type: st.msg.Type(), Message: st.msg})
 			if st.park {
 				s += " [parks in FS]"
